@@ -86,6 +86,51 @@ func userSymbols(q *cypher.RegularQuery) (vars, params []string) {
 	return
 }
 
+// pathVariableSymbols returns the symbols bound to whole paths (`p = (a)-[r]->(b)`).
+func pathVariableSymbols(q *cypher.RegularQuery) map[string]bool {
+	out := map[string]bool{}
+	var walk func(v reflect.Value, seen map[uintptr]bool, depth int)
+	typ := reflect.TypeOf((*cypher.PatternPart)(nil))
+	walk = func(v reflect.Value, seen map[uintptr]bool, depth int) {
+		if !v.IsValid() || depth > 500 {
+			return
+		}
+		switch v.Kind() {
+		case reflect.Pointer:
+			if v.IsNil() || seen[v.Pointer()] {
+				return
+			}
+			seen[v.Pointer()] = true
+			if v.Type() == typ {
+				pp := (*cypher.PatternPart)(unsafe.Pointer(v.Pointer()))
+				if pp.Variable != nil && pp.Variable.Symbol != "" {
+					out[pp.Variable.Symbol] = true
+				}
+			}
+			walk(v.Elem(), seen, depth+1)
+		case reflect.Interface:
+			if !v.IsNil() {
+				walk(v.Elem(), seen, depth+1)
+			}
+		case reflect.Struct:
+			for i := 0; i < v.NumField(); i++ {
+				walk(v.Field(i), seen, depth+1)
+			}
+		case reflect.Slice, reflect.Array:
+			for i := 0; i < v.Len(); i++ {
+				walk(v.Index(i), seen, depth+1)
+			}
+		case reflect.Map:
+			it := v.MapRange()
+			for it.Next() {
+				walk(it.Value(), seen, depth+1)
+			}
+		}
+	}
+	walk(reflect.ValueOf(q), map[uintptr]bool{}, 0)
+	return out
+}
+
 // renameSymbols applies rv to every variable symbol and rp to every parameter symbol, in place.
 func renameSymbols(q *cypher.RegularQuery, rv, rp map[string]string) {
 	walkSymbols(reflect.ValueOf(q), map[uintptr]bool{}, func(v *cypher.Variable) {
@@ -129,12 +174,13 @@ func parseQuery(q string) (m *cypher.RegularQuery, err error, panicked string) {
 
 // xlOutcome is the canonical observable of one translation.
 type xlOutcome struct {
-	Status string // ok | err | panic
-	Msg    string // error text / panic text
-	SQL    string // formatted statement, output aliases masked as §<i>
-	RawSQL string // formatted statement, unmasked
-	Params string // S-expression of the result parameter map
-	Keys   []string
+	Status    string // ok | err | panic
+	Msg       string // error text / panic text
+	SQL       string // formatted statement, output aliases masked as §<i>
+	RawSQL    string // formatted statement, unmasked
+	Params    string // S-expression of the result parameter map
+	Keys      []string
+	Lowerings []string // names of the optimizer lowerings the translation applied
 }
 
 // maskOutputAliases replaces, in the outermost SELECT only, every projection alias by §<index> and every
@@ -221,7 +267,12 @@ func outcomeOf(res translate.Result, err error, panicked string) xlOutcome {
 		keys = append(keys, k)
 	}
 	sort.Strings(keys)
-	return xlOutcome{Status: "ok", SQL: masked, RawSQL: raw, Params: ToSexp(res.Parameters), Keys: keys}
+	var lows []string
+	for _, l := range res.Optimization.Lowerings {
+		lows = append(lows, l.Name)
+	}
+	sort.Strings(lows)
+	return xlOutcome{Status: "ok", SQL: masked, RawSQL: raw, Params: ToSexp(res.Parameters), Keys: keys, Lowerings: lows}
 }
 
 // translateOutcome parses nothing: it translates a model under recover and canonicalises the result.
